@@ -11,7 +11,7 @@ func init() {
 	// ---------------- C01
 	fw.Register(&fw.Prop{
 		ID: "C01", Level: "fault_enumeration",
-		Rule: "real ReconnectClient, and RetryClient driven through the Retryer contract by a hand-written loop (Resubscribe/Retry in both orders), on the in-memory transport against a conforming broker model; canonical workloads (requests before Connect, after Connect, without waiting, waiting, during an outage, caller-set ids) x configurations (QoS2 method A/B, session kept/lost, AlwaysResubscribe, read chunking, late-write style) x " +
+		Rule: "real ReconnectClient, and RetryClient driven through the Retryer contract by a hand-written loop (Resubscribe/Retry in both orders, and a chaotic variant with repeated calls and abandoned clients), on the in-memory transport against a conforming broker model; canonical workloads (requests before Connect, after Connect, without waiting, waiting, during an outage, caller-set ids) x configurations (QoS2 method A/B, session kept/lost, AlwaysResubscribe, read chunking, late-write style) x " +
 			"every single cut of 4 kinds (before/after processing, write error or not, response delivered or not) at every request-packet ordinal, exhaustive cut pairs for short workloads, seeded random plans of up to 6 faults incl. refused/absent CONNACK and dial failures, " +
 			"and steered submissions while the reconnect goroutine is parked inside the Dialer / inside a ConnectOption (between SetClient and BaseClient.Connect), and submissions made from inside the ConnState(Active) and OnError callbacks. Each run ends with stabilise -> sentinel publish -> quiescence (sentinel acknowledged, queues empty) or a certified-stuck certificate. " +
 			"Oracle: obligation ledger - every accepted QoS>=1 publish / subscribe / unsubscribe has an acknowledgement that was sent and consumed on some connection. Non-trivial: distinct (workload, config, fired-fault shape, steering) in which at least one fault fired or a steered submission happened.",
@@ -19,7 +19,7 @@ func init() {
 		Gen: func(tier string, seed int64) []fw.Case {
 			return genRetry(retrySpec{
 				Workloads:   []string{"q1x3", "q2x2", "mixed", "pre", "waits", "outage", "outage2", "preset", "subs1", "idlecut", "echo"},
-				Configs:     withClients(cfgs(pick(tier, []string{"A"}, allMethods), []string{"keep", "lose"}, []bool{false}), 2, "retry", "retry-retryfirst"),
+				Configs:     withClients(cfgs(pick(tier, []string{"A"}, allMethods), []string{"keep", "lose"}, []bool{false}), 2, "retry", "retry-retryfirst", "retry-chaotic"),
 				Singles:     true,
 				Pairs:       pick(tier, nil, []string{"q1x3", "q2x2", "pre"}),
 				PairsSample: scale(tier, 40, 2000),
@@ -99,12 +99,13 @@ func init() {
 		Assumptions: []string{"broker grants the requested QoS", "the fold uses accepted calls in call order"},
 		Gen: func(tier string, seed int64) []fw.Case {
 			return genRetry(retrySpec{
-				Workloads:   []string{"subs1", "subs2", "subs3", "subs4", "subs5", "subs6", "mixed", "outage2"},
-				Configs:     withClients(cfgs([]string{"A"}, []string{"keep", "lose"}, []bool{false, true}), 4, "retry", "retry-retryfirst"),
+				Workloads:   []string{"subs1", "subs2", "subs3", "subs4", "subs5", "subs6", "subs7", "mixed", "outage2"},
+				Configs:     withClients(cfgs([]string{"A"}, []string{"keep", "lose"}, []bool{false, true}), 4, "retry", "retry-retryfirst", "retry-chaotic"),
 				Singles:     true,
 				PairsSample: scale(tier, 40, 1500),
 				Random:      scale(tier, 100, 4000),
 				RandHist:    scale(tier, 120, 12000),
+				Drops:       true,
 			}, tier)
 		},
 		Run: runRetryCase("C08", func(a *scen.Analysis) ([]scen.Finding, bool, map[string]int) {
